@@ -2,6 +2,8 @@
 
 package lib
 
+import "time"
+
 // VerifPoint marks a yield point for the verification harness.
 // Without the "verif" build tag it is a no-op.
 func VerifPoint(point string, subject any) {}
@@ -9,3 +11,7 @@ func VerifPoint(point string, subject any) {}
 // VerifNow returns the given time. The verification harness can override it
 // with the "verif" build tag.
 func VerifNow(now int64) int64 { return now }
+
+// VerifTimer lets the verification harness re-arm a timer that was just set
+// (to scale request timeouts down). Without the "verif" build tag it is a no-op.
+func VerifTimer(t *time.Timer) {}
